@@ -74,7 +74,7 @@ func (i *IRCServer) cmdServerNick(s *Session, reply *Replyctx, msg *irc.Message)
 	ss := i.sessions[id]
 	ss.Nick = msg.Params[0]
 	i.nicks[NickToLower(ss.Nick)] = ss
-	ss.Username = msg.Params[3]
+	ss.Username = truncateUsername(msg.Params[3])
 	ss.Realname = msg.Trailing()
 	ss.updateIrcPrefix()
 }
